@@ -2571,7 +2571,10 @@ def read_entry(
         # Count the number of samples
         entry['n_trials'] = len(entry['effective_error'])
 
-        entries.append(entry)
+        # A record without trials (as saved before the first trial has been
+        # run) carries no data, and its empty arrays cannot be pooled.
+        if entry['n_trials'] > 0:
+            entries.append(entry)
     return entries
 
 
